@@ -9,7 +9,7 @@
    Depends on the models and the regenerated constants only (not on the proofs). *)
 From Coq Require Import List Bool String ZArith NArith Arith.
 Import ListNotations.
-From HV Require Export run.C03Run model.Schema model.SchemaFast model.DocJson spec.DocJsonS spec.StaticWiringS gen.Schemas.
+From HV Require Export run.C03Run model.Schema model.SchemaFast model.DocJson model.DocJsonEnc spec.DocJsonS spec.StaticWiringS gen.Schemas.
 Open Scope nat_scope.
 
 Definition fuel := default_fuel.
@@ -114,12 +114,8 @@ Fixpoint all_some {A} (l : list (option A)) : option (list A) :=
   | Some x :: r => match all_some r with Some xs => Some (x :: xs) | None => None end
   | None :: _ => None
   end.
-(* Package._to_serial().model_dump_json() with the optional `encoder` member of every module as the implementation
-   wrote it (null or a string: neither C03 nor the schema says which); pkg_json of model/DocJson.v is the instance
-   "every encoder null" *)
-Definition pkg_json_e {sop md} (op_fields : sop -> obj) (md_fields : md -> obj)
-    (mods : list (option string * serial sop md)) (exts : list json) : json :=
-  JObj [("modules", JArr (map (fun m => doc_json op_fields md_fields (fst m) (snd m)) mods)); ("extensions", JArr exts)].
+(* the Package document with the optional `encoder` member of every module as the implementation wrote it (null or a
+   string: neither C03 nor the schema says which): pkg_json_e of model/DocJsonEnc.v *)
 Definition pkg_ok (j : jcase) (tab : list json) : bool :=
   match j_pkg j with
   | None => true
